@@ -468,10 +468,14 @@ func (m *MapOf[K, V]) resize(knownTable *mapOfTable[K, V], hint mapResizeHint) {
 		}
 	}
 	// Slow path.
-	if !atomic.CompareAndSwapInt64(&m.resizing, 0, 1) {
+	for !atomic.CompareAndSwapInt64(&m.resizing, 0, 1) {
 		// Someone else started resize. Wait for it to finish.
 		m.waitForResize()
-		return
+		if hint != mapClearHint {
+			return
+		}
+		// A clear must not be dropped: the other resize carried the
+		// entries over to its new table. Go for another attempt.
 	}
 	var newTable *mapOfTable[K, V]
 	table := (*mapOfTable[K, V])(atomic.LoadPointer(&m.table))
